@@ -81,9 +81,13 @@ type Case struct {
 }
 
 type Job struct {
-	Cases     []Case `json:"cases"`
-	Workers   int    `json:"workers"`
-	TimeoutMs int    `json:"timeout_ms"`
+	// Groups: upstreams of ONE configuration - created one after the other in this process with the
+	// same *tls.Config instance and the same bootstrap server (same names resolve to the same
+	// addresses). Every member is still judged on its own: C18 does not let siblings matter.
+	Groups    [][]Case `json:"groups"`
+	Cases     []Case   `json:"cases"`
+	Workers   int      `json:"workers"`
+	TimeoutMs int      `json:"timeout_ms"`
 }
 
 type Obs struct {
@@ -179,6 +183,38 @@ func (a *authority) leafFor(name string) *tls.Certificate {
 
 var ca *authority
 
+// shared: what the members of a group have in common
+type shared struct {
+	tlsCfg     *tls.Config
+	mu         sync.Mutex
+	ips        map[string]netip.Addr
+	other      netip.Addr
+	bs         net.PacketConn
+	extraPorts []int
+	rng        *rand.Rand
+}
+
+func (s *shared) ipFor(name string) netip.Addr {
+	s.mu.Lock()
+	defer s.mu.Unlock()
+	k := strings.ToLower(strings.TrimSuffix(name, "."))
+	if ip, ok := s.ips[k]; ok {
+		return ip
+	}
+	ip := netip.MustParseAddr(randLoop4(s.rng))
+	s.ips[k] = ip
+	return ip
+}
+
+func (s *shared) lookup(name string) netip.Addr {
+	s.mu.Lock()
+	defer s.mu.Unlock()
+	if ip, ok := s.ips[strings.ToLower(strings.TrimSuffix(name, "."))]; ok {
+		return ip
+	}
+	return s.other
+}
+
 // ---------------------------------------------------------------------------------------------
 // concretization
 // ---------------------------------------------------------------------------------------------
@@ -195,6 +231,7 @@ type caseCtx struct {
 	dialName string
 	// loop mode: names resolved by the harness bootstrap server
 	urlNameIP, dialNameIP, otherNameIP netip.Addr
+	sh                                 *shared
 
 	mu  sync.Mutex
 	obs []*Obs
@@ -306,6 +343,15 @@ func (cc *caseCtx) concretize() {
 		cc.urlNameIP = netip.MustParseAddr(randLoop4(r))
 		cc.dialNameIP = netip.MustParseAddr(randLoop4(r))
 		cc.otherNameIP = netip.MustParseAddr(randLoop4(r))
+		if cc.sh != nil {
+			cc.otherNameIP = cc.sh.other
+			if cc.urlName != "" {
+				cc.urlNameIP = cc.sh.ipFor(cc.urlName)
+			}
+			if cc.dialName != "" {
+				cc.dialNameIP = cc.sh.ipFor(cc.dialName)
+			}
+		}
 	}
 }
 
@@ -740,11 +786,15 @@ func (cc *caseCtx) bootstrapServe(pc net.PacketConn) {
 		}
 		name := q.Question[0].Name
 		ip := cc.otherNameIP
-		switch cc.absHost(name) {
-		case "url":
-			ip = cc.urlNameIP
-		case "dial":
-			ip = cc.dialNameIP
+		if cc.sh != nil {
+			ip = cc.sh.lookup(name)
+		} else {
+			switch cc.absHost(name) {
+			case "url":
+				ip = cc.urlNameIP
+			case "dial":
+				ip = cc.dialNameIP
+			}
 		}
 		r := new(dns.Msg)
 		r.SetReply(q)
@@ -771,8 +821,8 @@ func query() []byte {
 	return b
 }
 
-func runOnce(c Case, timeout time.Duration, try int) (res Result) {
-	cc := &caseCtx{c: c, rng: rand.New(rand.NewSource(vh.Seed()*1000003 + int64(c.Cid)*31 + int64(c.Variant)))}
+func runOnce(c Case, timeout time.Duration, try int, sh *shared) (res Result) {
+	cc := &caseCtx{c: c, sh: sh, rng: rand.New(rand.NewSource(vh.Seed()*1000003 + int64(c.Cid)*31 + int64(c.Variant)))}
 	cc.concretize()
 	res = Result{ID: c.ID, Mode: c.Mode, Variant: c.Variant, Obs: []Obs{}, Tries: try}
 	res.Addr = c.A.Scheme + "://" + cc.render(c.URL)
@@ -784,6 +834,9 @@ func runOnce(c Case, timeout time.Duration, try int) (res Result) {
 	ctx, cancel := context.WithCancel(context.Background())
 	defer cancel()
 	opt := upstream.Opt{DialAddr: res.DialAddr, TLSConfig: &tls.Config{RootCAs: ca.pool}}
+	if sh != nil {
+		opt.TLSConfig = sh.tlsCfg
+	}
 	var closers []closer
 	defer func() {
 		for _, x := range closers {
@@ -832,19 +885,27 @@ func runOnce(c Case, timeout time.Duration, try int) (res Result) {
 		}
 		if cc.urlName != "" || cc.dialName != "" {
 			targets = append(targets, target{"other", cc.otherNameIP})
-			bs, err := net.ListenPacket("udp", "127.0.0.1:0")
-			if err != nil {
-				res.Skipped = "bootstrap listen: " + err.Error()
-				return
+			if sh != nil {
+				opt.Bootstrap = sh.bs.LocalAddr().String()
+			} else {
+				bs, err := net.ListenPacket("udp", "127.0.0.1:0")
+				if err != nil {
+					res.Skipped = "bootstrap listen: " + err.Error()
+					return
+				}
+				closers = append(closers, bs)
+				go cc.bootstrapServe(bs)
+				opt.Bootstrap = bs.LocalAddr().String()
 			}
-			closers = append(closers, bs)
-			go cc.bootstrapServe(bs)
-			opt.Bootstrap = bs.LocalAddr().String()
 			res.Bootstrap = opt.Bootstrap
 		}
 		seen := map[int]bool{}
 		var ports []int
-		for _, p := range []int{c.A.Port, c.A.Dport, 53, 853, 443} {
+		cand := []int{c.A.Port, c.A.Dport, 53, 853, 443}
+		if sh != nil {
+			cand = append(cand, sh.extraPorts...)
+		}
+		for _, p := range cand {
 			if p != 0 && !seen[p] {
 				seen[p] = true
 				ports = append(ports, p)
@@ -930,14 +991,14 @@ func runOnce(c Case, timeout time.Duration, try int) (res Result) {
 	return
 }
 
-func runCase(c Case, timeout time.Duration) (res Result) {
+func runCase(c Case, timeout time.Duration, sh *shared) (res Result) {
 	t0 := time.Now()
 	defer func() { res.Ms = time.Since(t0).Milliseconds() }()
 	if c.Unasserted {
 		timeout = time.Second
 	}
 	for try := 1; try <= 2; try++ {
-		res = runOnce(c, timeout, try)
+		res = runOnce(c, timeout, try, sh)
 		if res.Skipped != "" {
 			return res
 		}
@@ -967,6 +1028,35 @@ func runCase(c Case, timeout time.Duration) (res Result) {
 	return res
 }
 
+func runGroup(g []Case, timeout time.Duration) {
+	if len(g) == 0 {
+		return
+	}
+	rng := rand.New(rand.NewSource(vh.Seed()*7907 + int64(g[0].ID)))
+	sh := &shared{tlsCfg: &tls.Config{RootCAs: ca.pool}, ips: map[string]netip.Addr{}, rng: rng}
+	sh.other = netip.MustParseAddr(randLoop4(rng))
+	for _, c := range g {
+		for _, p := range []int{c.A.Port, c.A.Dport} {
+			if p != 0 {
+				sh.extraPorts = append(sh.extraPorts, p)
+			}
+		}
+	}
+	bs, err := net.ListenPacket("udp", "127.0.0.1:0")
+	if err != nil {
+		for _, c := range g {
+			vh.Emit(Result{ID: c.ID, Mode: c.Mode, Skipped: "bootstrap listen: " + err.Error(), Obs: []Obs{}})
+		}
+		return
+	}
+	defer bs.Close()
+	sh.bs = bs
+	go (&caseCtx{sh: sh, otherNameIP: sh.other}).bootstrapServe(bs)
+	for _, c := range g {
+		vh.Emit(runCase(c, timeout, sh))
+	}
+}
+
 func main() {
 	var job Job
 	if err := vh.ReadJob(&job); err != nil {
@@ -987,7 +1077,7 @@ func main() {
 		go func() {
 			defer wg.Done()
 			for c := range ch {
-				vh.Emit(runCase(c, time.Duration(job.TimeoutMs)*time.Millisecond))
+				vh.Emit(runCase(c, time.Duration(job.TimeoutMs)*time.Millisecond, nil))
 			}
 		}()
 	}
@@ -995,6 +1085,20 @@ func main() {
 		ch <- c
 	}
 	close(ch)
+	gch := make(chan []Case)
+	for i := 0; i < job.Workers; i++ {
+		wg.Add(1)
+		go func() {
+			defer wg.Done()
+			for g := range gch {
+				runGroup(g, time.Duration(job.TimeoutMs)*time.Millisecond)
+			}
+		}()
+	}
+	for _, g := range job.Groups {
+		gch <- g
+	}
+	close(gch)
 	wg.Wait()
 	vh.Flush()
 }
